@@ -323,6 +323,9 @@ func xid6(x uint32) dhcpv6.TransactionID {
 func (V6) Request(xid uint32, extra int) Req {
 	m := &dhcpv6.Message{MessageType: dhcpv6.MessageTypeSolicit, TransactionID: xid6(xid)}
 	m.AddOption(dhcpv6.OptElapsedTime(0))
+	// options in the order a client adds them, not in ascending code order (what is sent is what the caller built)
+	m.AddOption(dhcpv6.OptRequestedOption(dhcpv6.OptionDNSRecursiveNameServer, dhcpv6.OptionDomainSearchList))
+	m.AddOption(dhcpv6.OptClientID(&dhcpv6.DUIDLL{HWType: 1, LinkLayerAddr: HW}))
 	if extra > 0 {
 		m.AddOption(&dhcpv6.OptionGeneric{OptionCode: 65002, OptionData: make([]byte, extra%200)})
 	}
